@@ -30,7 +30,20 @@ EXC = {'ValueError': 'valueError', 'IndexError': 'indexError', 'TypeError': 'typ
        'InvalidTableIndex': 'invalidTableIndex', 'InvalidTableIndexError': 'invalidTableIndex',
        'InvalidTableSizeError': 'invalidTableSizeError', 'OversizedHeaderListError': 'oversizedHeaderListError'}
 
-LEAN_T = {'int': 'Int', 'bytes': 'List UInt8', 'listint': 'List Int', 'bool': 'Bool'}
+LEAN_T = {'int': 'Int', 'bytes': 'List UInt8', 'listint': 'List Int', 'bool': 'Bool', 'unit': 'Unit',
+          'entry': '(List UInt8 × List UInt8)', 'listentry': 'List (List UInt8 × List UInt8)'}
+
+
+def lean_t(ty):
+    if ty.startswith('self:'):
+        return ty[5:]
+    return LEAN_T[ty]
+
+
+def fname_(attr):
+    """Lean field name of a Python attribute"""
+    return 'f_' + attr.lstrip('_')
+
 
 
 class Unsupported(Exception):
@@ -42,8 +55,10 @@ def lname(n):
 
 
 class Ctx:
-    def __init__(self, fname, consts):
+    def __init__(self, fname, consts, cls=None, funcs=None):
         self.fname = fname
+        self.cls = cls                # None or dict(name, fields {attr: type}, consts {NAME: (type, value)}, methods {name: (param types, ret type)})
+        self.funcs = funcs or {}      # translated module-level functions: name -> (param types, return type)
         self.consts = consts          # module-level name -> python value (int or list of int)
         self.used_consts = []
         self.loops = []               # emitted loop function texts
@@ -88,6 +103,18 @@ def expr(e, env, cx):
                 cx.used_consts.append(e.id)
             return [], 'c_' + e.id, 'int' if isinstance(v, int) else 'listint'
         raise Unsupported('name %s' % e.id)
+    if isinstance(e, ast.Attribute) and isinstance(e.value, ast.Name):
+        if e.value.id == 'self' and env.get('self', '').startswith('self:') and cx.cls and e.attr in cx.cls['fields']:
+            return [], 'self.' + fname_(e.attr), cx.cls['fields'][e.attr]
+        if cx.cls and e.value.id == cx.cls['name'] and e.attr in cx.cls['consts']:
+            ty, _ = cx.cls['consts'][e.attr]
+            if e.attr not in cx.cls['used']:
+                cx.cls['used'].append(e.attr)
+            return [], 'c_%s_%s' % (cx.cls['name'], e.attr), ty
+        raise Unsupported('attribute %s.%s' % (e.value.id, e.attr))
+    if isinstance(e, (ast.Compare, ast.BoolOp)) or (isinstance(e, ast.UnaryOp) and isinstance(e.op, ast.Not)):
+        b, c = cond(e, env, cx)
+        return b, '(decide %s)' % c, 'bool'
     if isinstance(e, ast.BinOp):
         b1, t1, ty1 = expr(e.left, env, cx)
         b2, t2, ty2 = expr(e.right, env, cx)
@@ -121,6 +148,8 @@ def expr(e, env, cx):
             return bv + bi + ['let %s ← Py.getByte %s %s' % (t, tv, ti)], t, 'int'
         if tyv == 'listint':
             return bv + bi + ['let %s ← Py.listGet %s %s' % (t, tv, ti)], t, 'int'
+        if tyv == 'listentry':
+            return bv + bi + ['let %s ← Py.seqGet %s %s' % (t, tv, ti)], t, 'entry'
         raise Unsupported('subscript of ' + tyv)
     if isinstance(e, ast.List):
         bs, ts = [], []
@@ -148,12 +177,24 @@ def expr(e, env, cx):
             raise Unsupported('%s(%s)' % (f, ty))
         if f == 'len' and len(e.args) == 1:
             b, t, ty = expr(e.args[0], env, cx)
-            if ty in ('bytes', 'listint'):
+            if ty in ('bytes', 'listint', 'listentry'):
                 return b, '((%s).length : Int)' % t, 'int'
         if f == 'int' and len(e.args) == 1:
             b, t, ty = expr(e.args[0], env, cx)
             if ty == 'int':
                 return b, t, 'int'
+        if f in cx.funcs and not e.keywords:
+            ptys, rty = cx.funcs[f]
+            if len(e.args) != len(ptys):
+                raise Unsupported('arity of ' + f)
+            bs, ts = [], []
+            for a, pt in zip(e.args, ptys):
+                b, t, ty = expr(a, env, cx)
+                if ty != pt:
+                    raise Unsupported('argument of %s: %s where %s is expected' % (f, ty, pt))
+                bs += b; ts.append(t)
+            tt = cx.fresh()
+            return bs + ['let %s ← %s fuel %s' % (tt, f, ' '.join(ts))], tt, rty
         raise Unsupported('call of ' + f)
     raise Unsupported('expression ' + type(e).__name__)
 
@@ -193,11 +234,18 @@ def names_in(node):
     return [n.id for n in ast.walk(node) if isinstance(n, ast.Name)]
 
 
+def _is_self_attr(n):
+    return isinstance(n, ast.Attribute) and isinstance(n.value, ast.Name) and n.value.id == 'self'
+
+
 def assigned_in(stmts):
     out = []
     for s in stmts:
         for n in ast.walk(s):
             tg = []
+            if isinstance(n, ast.Call) and isinstance(n.func, ast.Attribute) and \
+                    (_is_self_attr(n.func) or _is_self_attr(n.func.value)) and 'self' not in out:
+                out.append('self')        # self.method(...) or self.attr.method(...): may mutate the object
             if isinstance(n, ast.Assign):
                 tg = n.targets
             elif isinstance(n, ast.AugAssign):
@@ -210,6 +258,11 @@ def assigned_in(stmts):
                     if isinstance(x, ast.Name) and x.id not in out:
                         out.append(x.id)
     return out
+
+
+def ret_ok(env, text, cx):
+    """the value a `return` produces: methods also hand back the object"""
+    return '.ok (self, %s)' % text if env.get('self', '').startswith('self:') else '.ok %s' % text
 
 
 def toplevel_assigned(stmts):
@@ -267,6 +320,30 @@ def tr(stmts, env, cx, k):
     s, rest = stmts[0], stmts[1:]
     if is_dropped(s):
         return tr(rest, env, cx, k)
+    if isinstance(s, ast.Assign) and len(s.targets) == 1 and _is_self_attr(s.targets[0]):
+        attr = s.targets[0].attr
+        if not cx.cls or attr not in cx.cls['fields']:
+            raise Unsupported('assignment to self.%s' % attr)
+        b, t, ty = expr(s.value, env, cx)
+        if ty != cx.cls['fields'][attr]:
+            raise Unsupported('self.%s: %s assigned where %s is expected' % (attr, ty, cx.cls['fields'][attr]))
+        return b + ['let self := { self with %s := %s }' % (fname_(attr), t)] + tr(rest, env, cx, k)
+    if isinstance(s, ast.Assign) and len(s.targets) == 1 and isinstance(s.targets[0], ast.Tuple) \
+            and all(isinstance(x, ast.Name) for x in s.targets[0].elts) and len(s.targets[0].elts) == 2:
+        a, b_ = [x.id for x in s.targets[0].elts]
+        v = s.value
+        if isinstance(v, ast.Call) and isinstance(v.func, ast.Attribute) and v.func.attr == 'pop' and not v.args \
+                and _is_self_attr(v.func.value) and cx.cls and cx.cls['fields'].get(v.func.value.attr) == 'listentry':
+            fld = fname_(v.func.value.attr)         # deque.pop(): the right end; IndexError when empty
+            tt = cx.fresh()
+            env2 = dict(env); env2[a] = 'bytes'; env2[b_] = 'bytes'
+            return ['let (%s, %s_rest) ← Py.popRight self.%s' % (tt, tt, fld), 'let self := { self with %s := %s_rest }' % (fld, tt),
+                    'let %s := %s.1' % (lname(a), tt), 'let %s := %s.2' % (lname(b_), tt)] + tr(rest, env2, cx, k)
+        bb, t, ty = expr(v, env, cx)
+        if ty != 'entry':
+            raise Unsupported('unpacking of ' + ty)
+        env2 = dict(env); env2[a] = 'bytes'; env2[b_] = 'bytes'
+        return bb + ['let %s := %s.1' % (lname(a), t), 'let %s := %s.2' % (lname(b_), t)] + tr(rest, env2, cx, k)
     if isinstance(s, ast.Assign):
         if len(s.targets) != 1 or not isinstance(s.targets[0], ast.Name):
             raise Unsupported('assignment target')
@@ -278,6 +355,40 @@ def tr(stmts, env, cx, k):
             raise Unsupported('tuple assignment')
         env2 = dict(env); env2[name] = ty
         return b + ['let %s := %s' % (lname(name), t)] + tr(rest, env2, cx, k)
+    if isinstance(s, ast.AugAssign) and _is_self_attr(s.target):
+        attr = s.target.attr
+        if not cx.cls or cx.cls['fields'].get(attr) != 'int':
+            raise Unsupported('augmented assignment to self.%s' % attr)
+        fake = ast.BinOp(left=s.target, op=s.op, right=s.value)
+        b, t, ty = expr(fake, env, cx)
+        return b + ['let self := { self with %s := %s }' % (fname_(attr), t)] + tr(rest, env, cx, k)
+    if isinstance(s, ast.Expr) and isinstance(s.value, ast.Call) and isinstance(s.value.func, ast.Attribute) \
+            and _is_self_attr(s.value.func.value) and cx.cls and cx.cls['fields'].get(s.value.func.value.attr) == 'listentry':
+        fld, meth, args = fname_(s.value.func.value.attr), s.value.func.attr, s.value.args
+        if meth == 'clear' and not args:
+            return ['let self := { self with %s := [] }' % fld] + tr(rest, env, cx, k)
+        if meth == 'appendleft' and len(args) == 1 and isinstance(args[0], ast.Tuple) and len(args[0].elts) == 2:
+            bs, ts = [], []
+            for x in args[0].elts:
+                b, t, ty = expr(x, env, cx)
+                if ty != 'bytes':
+                    raise Unsupported('appendleft of ' + ty)
+                bs += b; ts.append(t)
+            return bs + ['let self := { self with %s := (%s, %s) :: self.%s }' % (fld, ts[0], ts[1], fld)] + tr(rest, env, cx, k)
+        raise Unsupported('deque method ' + meth)
+    if isinstance(s, ast.Expr) and isinstance(s.value, ast.Call) and _is_self_attr(s.value.func) and cx.cls \
+            and s.value.func.attr in cx.cls['methods']:
+        ptys, rty = cx.cls['methods'][s.value.func.attr]
+        if len(s.value.args) != len(ptys) or s.value.keywords:
+            raise Unsupported('arity of self.' + s.value.func.attr)
+        bs, ts = [], []
+        for a, pt in zip(s.value.args, ptys):
+            b, t, ty = expr(a, env, cx)
+            if ty != pt:
+                raise Unsupported('argument type')
+            bs += b; ts.append(t)
+        tt = cx.fresh()
+        return bs + ['let (%s, _) ← %s.%s fuel self %s' % (tt, cx.cls['name'], lname_m(s.value.func.attr), ' '.join(ts)), 'let self := %s' % tt] + tr(rest, env, cx, k)
     if isinstance(s, ast.AugAssign):
         if not isinstance(s.target, ast.Name) or s.target.id not in env:
             raise Unsupported('augmented assignment target')
@@ -303,14 +414,21 @@ def tr(stmts, env, cx, k):
         nm = exc.func.id if isinstance(exc, ast.Call) and isinstance(exc.func, ast.Name) else (exc.id if isinstance(exc, ast.Name) else None)
         if nm not in EXC:
             raise Unsupported('raise of %s' % nm)
-        return ['.error .%s' % EXC[nm]]
+        bs = []
+        if isinstance(exc, ast.Call):
+            for a in exc.args:
+                if isinstance(a, ast.Name) and a.id not in env and a.id not in cx.consts:
+                    continue          # a message string built earlier (opaque; its formatting was bound where it was built)
+                b, t, ty = expr(a, env, cx)
+                bs += b
+        return bs + ['.error .%s' % EXC[nm]]
     if isinstance(s, ast.Return):
         if not k.ret_ok:
             raise Unsupported('return inside a loop or a try block')
         if s.value is None:
-            return ['.ok ()']
+            return [ret_ok(env, '()', cx)]
         b, t, ty = expr(s.value, env, cx)
-        return b + ['.ok %s' % t]
+        return b + [ret_ok(env, t, cx)]
     if isinstance(s, ast.Break):
         if k.brk is None:
             raise Unsupported('break outside a loop')
@@ -344,8 +462,8 @@ def tr(stmts, env, cx, k):
             if b:
                 raise Unsupported('partial operation in a loop condition')
             inner = ['if %s then do' % c] + ind(body) + ['else', '  .ok %s' % tuple_text(rets)]
-        rty = ' × '.join(LEAN_T[env[v]] for v in rets) if rets else 'Unit'
-        sig = 'def %s : Nat → %s → R (%s)' % (lf, ' → '.join(LEAN_T[env[p]] for p in params), rty)
+        rty = ' × '.join(lean_t(env[v]) for v in rets) if rets else 'Unit'
+        sig = 'def %s : Nat → %s → R (%s)' % (lf, ' → '.join(lean_t(env[p]) for p in params), rty)
         txt = [sig, '  | 0, %s => .error .nonTermination' % ', '.join('_' for _ in params),
                '  | fuel + 1, %s => do' % ', '.join(lname(p) for p in params)] + ind(inner, 4)
         cx.loops.append('\n'.join(txt))
@@ -383,85 +501,197 @@ def tr(stmts, env, cx, k):
     raise Unsupported('statement ' + type(s).__name__)
 
 
-def translate_function(fn, consts):
-    cx = Ctx(fn.name, consts)
+def lname_m(n):
+    return n.lstrip('_') if n.startswith('_') else n
+
+
+def translate_function(fn, consts, cls=None, funcs=None, lean_name=None):
+    cx = Ctx(lean_name or fn.name, consts, cls, funcs)
     env = {}
     for a in fn.args.args:
+        if a.arg == 'self' and cls is not None:
+            env['self'] = 'self:' + cls['name']
+            continue
         ann = ast.unparse(a.annotation) if a.annotation is not None else ''
         ty = {'int': 'int', 'bytes': 'bytes', 'bytearray': 'bytes', 'bytes | bytearray': 'bytes', 'memoryview': 'bytes'}.get(ann)
         if ty is None:
             raise Unsupported('parameter %s: %s' % (a.arg, ann))
         env[a.arg] = ty
     ret = ast.unparse(fn.returns) if fn.returns is not None else ''
-    rty = {'bytearray': 'List UInt8', 'bytes': 'List UInt8', 'int': 'Int', 'tuple[int, int]': 'Int × Int', 'None': 'Unit'}.get(ret)
-    if rty is None:
+    rkind = {'bytearray': 'bytes', 'bytes': 'bytes', 'int': 'int', 'tuple[int, int]': 'tuple:int,int', 'None': 'unit', 'tuple[bytes, bytes]': 'entry'}.get(ret)
+    if rkind is None:
         raise Unsupported('return annotation %s' % ret)
-    body = tr(list(fn.body), env, cx, K(fall=lambda env_: ['.ok ()'], ret_ok=True))
-    sig = 'def %s (fuel : Nat) %s : R (%s) := do' % (fn.name, ' '.join('(%s : %s)' % (lname(a), LEAN_T[t]) for a, t in env.items()), rty)
+    rty = 'Int × Int' if rkind == 'tuple:int,int' else LEAN_T[rkind]
+    if 'self' in env:
+        rty = '%s × %s' % (cls['name'], rty)
+    body = tr(list(fn.body), env, cx, K(fall=lambda env_: [ret_ok(env_, '()', cx)], ret_ok=True))
+    sig = 'def %s (fuel : Nat) %s : R (%s) := do' % (cx.fname, ' '.join('(%s : %s)' % (lname(a), lean_t(t)) for a, t in env.items()), rty)
+    cx.ptys = [t for a, t in env.items() if a != 'self']
+    cx.rkind = rkind
     return cx, '\n\n'.join(cx.loops + ['\n'.join([sig] + ind(body))])
 
 
-def module_consts(repo, module):
+def module_consts(repo, module, cls=None):
+    """run-time values of the module-level (and class-level) integer / list-of-integer / table constants"""
     code = ("import sys, json; sys.path.insert(0, %r); import importlib; m = importlib.import_module(%r);"
-            "out = {k: v for k, v in vars(m).items() if isinstance(v, int) and not isinstance(v, bool) or "
-            "(isinstance(v, (list, tuple)) and v and len(v) < 64 and all(isinstance(x, int) and not isinstance(x, bool) for x in v))};"
-            "print(json.dumps({k: (list(v) if not isinstance(v, int) else v) for k, v in out.items()}))") % (os.path.join(repo, 'src'), module)
+            "ok = lambda v: (isinstance(v, int) and not isinstance(v, bool)) or (isinstance(v, (list, tuple)) and v and len(v) < 64 and all(isinstance(x, int) and not isinstance(x, bool) for x in v));"
+            "pairs = lambda v: isinstance(v, (list, tuple)) and v and len(v) < 200 and all(isinstance(x, tuple) and len(x) == 2 and all(isinstance(y, bytes) for y in x) for x in v);"
+            "out = {'module': {k: (list(v) if not isinstance(v, int) else v) for k, v in vars(m).items() if ok(v)}, 'cls': {}};"
+            "c = getattr(m, %r, None) if %r else None;"
+            "out['cls'] = {k: ({'int': v} if isinstance(v, int) else {'listint': list(v)}) for k, v in (vars(c).items() if c else []) if ok(v)};"
+            "out['cls'].update({k: {'listentry': [[x[0].hex(), x[1].hex()] for x in v]} for k, v in (vars(c).items() if c else []) if pairs(v)});"
+            "print(json.dumps(out))") % (os.path.join(repo, 'src'), module, cls or '', cls or '')
     p = subprocess.run([sys.executable, '-I', '-c', code], capture_output=True, text=True)
     if p.returncode != 0:
         raise Unsupported('cannot import %s: %s' % (module, p.stderr.strip().splitlines()[-1] if p.stderr.strip() else ''))
     return json.loads(p.stdout)
 
 
-def translate(repo, targets):
-    """targets: [(module, relative file, [function names])] -> (lean text, report)"""
+def bytes_lit(hexs):
+    b = bytes.fromhex(hexs)
+    return '[' + ', '.join(str(x) for x in b) + ']'
+
+
+def class_fields(cdef):
+    """field types from the assignments of __init__"""
+    init = [n for n in cdef.body if isinstance(n, ast.FunctionDef) and n.name == '__init__']
+    if not init:
+        raise Unsupported('class %s has no __init__' % cdef.name)
+    fields, inits = {}, {}
+    for st in init[0].body:
+        if is_dropped(st):
+            continue
+        tgt, val = None, None
+        if isinstance(st, ast.Assign) and len(st.targets) == 1:
+            tgt, val = st.targets[0], st.value
+        elif isinstance(st, ast.AnnAssign):
+            tgt, val = st.target, st.value
+        if tgt is None or not _is_self_attr(tgt):
+            raise Unsupported('statement in __init__')
+        fields[tgt.attr] = val
+    return fields
+
+
+def translate_unit(repo, unit):
+    path = os.path.join(repo, 'src', unit['rel'])
+    tree = ast.parse(open(path).read())
+    rt = module_consts(repo, unit['module'], unit.get('cls'))
+    consts = rt['module']
+    defs = {n.name: n for n in tree.body if isinstance(n, ast.FunctionDef)}
     parts, report = [], {'functions': {}, 'constants': {}}
-    const_lines = []
-    seen_consts = set()
-    for module, rel, fns in targets:
-        path = os.path.join(repo, 'src', rel)
-        tree = ast.parse(open(path).read())
-        consts = module_consts(repo, module)
-        defs = {n.name: n for n in tree.body if isinstance(n, ast.FunctionDef)}
-        for f in fns:
-            if f not in defs:
-                raise Unsupported('function %s not found in %s' % (f, rel))
-            cx, text = translate_function(defs[f], consts)
-            parts.append(text)
-            report['functions'][f] = {'loops': cx.nloop, 'lines': text.count('\n') + 1}
-            for c in cx.used_consts:
-                if c not in seen_consts:
-                    seen_consts.add(c)
-                    v = consts[c]
-                    report['constants'][c] = v
-                    if isinstance(v, int):
-                        const_lines.append('def c_%s : Int := %d' % (c, v))
-                    else:
-                        const_lines.append('def c_%s : List Int := [%s]' % (c, ', '.join(str(x) for x in v)))
-    head = ['import HpackVerif.Src.Py',
-            '/-! GENERATED by tools/py2lean.py from the source text of $HPACK_REPO/src/hpack on every run. Do not edit. -/',
-            'namespace Src', 'open Py', '']
-    return '\n'.join(head + const_lines + [''] + ['\n\n'.join(parts)] + ['', 'end Src', '']), report
+    const_lines, seen = [], set()
+    funcs = {}
+
+    def note_consts(cx):
+        for c in cx.used_consts:
+            if c not in seen:
+                seen.add(c)
+                v = consts[c]
+                report['constants'][c] = v
+                const_lines.append('def c_%s : Int := %d' % (c, v) if isinstance(v, int) else 'def c_%s : List Int := [%s]' % (c, ', '.join(str(x) for x in v)))
+
+    for f in unit.get('functions', []):
+        if f not in defs:
+            raise Unsupported('function %s not found in %s' % (f, unit['rel']))
+        cx, text = translate_function(defs[f], consts, None, funcs)
+        funcs[f] = (cx.ptys, cx.rkind)
+        parts.append(text)
+        report['functions'][f] = {'loops': cx.nloop, 'lines': text.count('\n') + 1}
+        note_consts(cx)
+    struct_lines = []
+    if unit.get('cls'):
+        cname = unit['cls']
+        cdefs = [n for n in tree.body if isinstance(n, ast.ClassDef) and n.name == cname]
+        if not cdefs:
+            raise Unsupported('class %s not found' % cname)
+        cdef = cdefs[0]
+        cconst = {}
+        for k, v in rt['cls'].items():
+            (ty, val), = v.items()
+            cconst[k] = (ty, val)
+        cls = {'name': cname, 'fields': {}, 'consts': cconst, 'methods': {}, 'used': []}
+        # fields and their initial values
+        finit = class_fields(cdef)
+        cx0 = Ctx(cname + '.new', consts, cls, funcs)
+        init_vals = []
+        for attr, val in finit.items():
+            if isinstance(val, ast.Call) and isinstance(val.func, ast.Name) and val.func.id == 'deque' and not val.args:
+                ty, t = 'listentry', '[]'
+            else:
+                b, t, ty = expr(val, {}, cx0)
+                if b or ty not in ('int', 'bool'):
+                    raise Unsupported('initial value of self.%s' % attr)
+            cls['fields'][attr] = ty
+            init_vals.append((attr, ty, t))
+        mdefs = {}
+        for n in cdef.body:
+            if isinstance(n, ast.FunctionDef):
+                key = n.name
+                for d in n.decorator_list:
+                    if isinstance(d, ast.Attribute) and d.attr == 'setter':
+                        key = n.name + '.setter'
+                    elif isinstance(d, ast.Name) and d.id == 'property':
+                        key = n.name + '.getter'
+                mdefs[key] = n
+        mparts = []
+        for m in unit.get('methods', []):
+            if m not in mdefs:
+                raise Unsupported('method %s.%s not found' % (cname, m))
+            lean = '%s.%s' % (cname, lname_m(m).replace('.setter', '_set'))
+            cx, text = translate_function(mdefs[m], consts, cls, funcs, lean_name=lean)
+            cls['methods'][m] = (cx.ptys, cx.rkind)
+            mparts.append(text)
+            report['functions'][cname + '.' + m] = {'loops': cx.nloop, 'lines': text.count('\n') + 1}
+            note_consts(cx)
+        struct_lines = ['structure %s where' % cname] + ['  %s : %s' % (fname_(a), LEAN_T[ty]) for a, ty, _ in init_vals] + \
+                       ['deriving Repr, DecidableEq', ''] + \
+                       ['/-- `%s()` -/' % cname, 'def %s.new : %s := { %s }' % (cname, cname, ', '.join('%s := %s' % (fname_(a), t) for a, _, t in init_vals)), '']
+        for k in cls['used']:
+            ty, val = cconst[k]
+            report['constants']['%s.%s' % (cname, k)] = val if ty != 'listentry' else '%d entries' % len(val)
+            if ty == 'int':
+                const_lines.append('def c_%s_%s : Int := %d' % (cname, k, val))
+            elif ty == 'listint':
+                const_lines.append('def c_%s_%s : List Int := [%s]' % (cname, k, ', '.join(str(x) for x in val)))
+            else:
+                const_lines.append('def c_%s_%s : List (List UInt8 × List UInt8) := [\n  %s]' % (cname, k, ',\n  '.join('(%s, %s)' % (bytes_lit(a), bytes_lit(b)) for a, b in val)))
+        parts = parts[:]          # functions first (methods may call them), then the structure, then the methods
+        body = '\n\n'.join(parts) + ('\n\n' if parts else '') + '\n'.join(struct_lines) + '\n' + '\n\n'.join(mparts)
+    else:
+        body = '\n\n'.join(parts)
+    head_ = ['import HpackVerif.Src.Py',
+             '/-! GENERATED by tools/py2lean.py from the source text of $HPACK_REPO/src/%s on every run. Do not edit. -/' % unit['rel'],
+             'namespace Src', 'open Py', '']
+    return '\n'.join(head_ + const_lines + ['', body, '', 'end Src', '']), report
 
 
-TARGETS = [('hpack.hpack', 'hpack/hpack.py', ['encode_integer', 'decode_integer'])]
+UNITS = {
+    'SrcInt': {'module': 'hpack.hpack', 'rel': 'hpack/hpack.py', 'functions': ['encode_integer', 'decode_integer']},
+    'SrcTable': {'module': 'hpack.table', 'rel': 'hpack/table.py', 'functions': ['table_entry_size'], 'cls': 'HeaderTable',
+                 'methods': ['get_by_index', '_shrink', 'add', 'maxsize.setter']},
+}
 
 
 def main():
     repo = os.environ.get('HPACK_REPO', '/repo')
-    out = sys.argv[1] if len(sys.argv) > 1 else os.path.join(os.path.dirname(os.path.dirname(os.path.abspath(__file__))), 'lean', 'HpackVerif', 'Generated', 'SrcInt.lean')
-    try:
-        text, report = translate(repo, TARGETS)
-        report['available'] = True
-    except (Unsupported, SyntaxError, OSError) as e:
-        text = '\n'.join(['import HpackVerif.Src.Py', '/-! GENERATED by tools/py2lean.py: the source could not be translated (%s). -/' % str(e).replace('-/', '- /'),
-                          'namespace Src', 'def unavailable : Unit := ()', 'end Src', ''])
-        report = {'available': False, 'reason': str(e)}
-    old = open(out).read() if os.path.exists(out) else None
-    if old != text:
-        with open(out, 'w') as f:
-            f.write(text)
-        report['rewritten'] = True
-    print(json.dumps(report))
+    gen = sys.argv[1] if len(sys.argv) > 1 else os.path.join(os.path.dirname(os.path.dirname(os.path.abspath(__file__))), 'lean', 'HpackVerif', 'Generated')
+    out_report = {}
+    for name, unit in UNITS.items():
+        out = os.path.join(gen, name + '.lean')
+        try:
+            text, report = translate_unit(repo, unit)
+            report['available'] = True
+        except (Unsupported, SyntaxError, OSError, KeyError, ValueError) as e:
+            text = '\n'.join(['import HpackVerif.Src.Py', '/-! GENERATED by tools/py2lean.py: the source could not be translated (%s). -/' % str(e).replace('-/', '- /'),
+                              'namespace Src', 'def unavailable_%s : Unit := ()' % name, 'end Src', ''])
+            report = {'available': False, 'reason': '%s: %s' % (type(e).__name__, e)}
+        old = open(out).read() if os.path.exists(out) else None
+        if old != text:
+            with open(out, 'w') as f:
+                f.write(text)
+            report['rewritten'] = True
+        out_report[name] = report
+    print(json.dumps(out_report))
 
 
 if __name__ == '__main__':
